@@ -3,7 +3,7 @@
 // specification Goyang.Spec.Types (lexical binding + chain inheritance) evaluated on the Go output
 // of every case.
 //
-// Inputs: corpus (corpus/C09/*.json, the witnesses of the repaired defects), an exhaustive
+// Inputs: corpus (corpus/C09/*.json, the witnesses of the repaired defects and of seeded changes), an exhaustive
 // enumeration of binding situations (which of the visible scopes declare the name x how the
 // reference is written x where it stands), seeded random schemas (gen.go), and a stream of odd but
 // builder-accepted type statements.
@@ -888,7 +888,7 @@ func main() {
 	}
 	res.Evaluations = int64(evaluated)
 	res.DistinctNontrivial = nontrivial
-	res.Rule = "distinct schema sets (by content) in which at least one leaf resolves through a typedef (resolved name differs from the base kind) or is rejected with a binding error (unknown type, unknown prefix, cycle); every case = load all files, Process() twice, dump Entry.Type / DefaultValues / Errors of every leaf entry (Dir, rpc input/output, augments) and Type.YangType of every AST leaf, compared with the model's per-statement answer and with the specification's binding + inheritance"
+	res.Rule = "distinct schema sets (by content) in which at least one leaf resolves through a typedef (resolved name differs from the base kind) or is rejected with a binding error (unknown type, unknown prefix, cycle); every case = load all files, Process() twice (history cases: then load further files - other revisions of an imported module - into the same Modules and Process() twice again; the model answers for all texts together, i.e. for a fresh load), dump Entry.Type / DefaultValues / Errors of every leaf entry (Dir, rpc input/output, augments) and Type.YangType of every AST leaf, compared with the model's per-statement answer and with the specification's binding + inheritance"
 	res.Distribution["corpus_cases"] = len(corpus)
 	res.Distribution["exhaustive_binding_cases"] = len(exh)
 	res.Distribution["random_cases"] = nRandom / shards * shards
@@ -908,7 +908,8 @@ func main() {
 	res.Distribution["spec_verdict_no_claim"] = specNo
 	res.Notes = append(res.Notes,
 		"a cyclic definition is compared by class only: which statement of the cycle is named depends on where the memoising traversal entered it first",
-		"sets in which an include/import does not resolve are compared only on Process() reporting it")
+		"sets in which an include/import does not resolve are compared only on Process() reporting it",
+		"multi-revision cases: module b in 2-3 revisions with differing same-named typedefs, imports pinned by revision-date / unpinned / pinned to an absent revision, one or two imports of b per importer, references direct, through typedefs of typedefs, unions and a third module")
 	res.Write(f.Out)
 }
 
